@@ -123,8 +123,9 @@ def cases(tier, seed):
                     j += 1
                     if tier == "quick" and j % 3:
                         continue
+                    # (the order the variable's dimensions are stored in)
                     yield {"kind": "heatmap", "nx": nx, "ny": ny, "mask": mask,
-                           "grid": grid, "opts": o}
+                           "grid": grid, "opts": o, "order": (j // 3) % 3}
     yield {"kind": "auto_heatmap", "opts": {}}
 
 
@@ -585,6 +586,12 @@ def check_heat(case):
         ds = ds.isel(r=0, drop=True)
     if nq == 1:
         ds = ds.isel(q=0, drop=True)
+    order = case.get("order", 0)
+    if order:
+        dims = list(ds["zz"].dims)
+        perm = ([d for d in dims if d != "yy"] + ["yy"]) if order == 1 \
+            else dims[::-1]
+        ds["zz"] = ds["zz"].transpose(*perm)
     before = ds.copy(deep=True)
     vio = []
 
